@@ -346,6 +346,7 @@ def run_optfilter(ctx, ch: Channel):
     n = ctx.scale(1200, 15000)
     glob = OptionsRepository.get_default_options()
     keys = list(mfts.manifest_map.keys())
+    crosscheck_manifest_table(ch)
     lines, meta = [], []
     cases = []
     for key in keys:                        # every hostile argument set on every template
@@ -404,3 +405,13 @@ def run_optfilter(ctx, ch: Channel):
         if mo != "driver-error" and mo != impl:
             ch.disagreements.append({"op": what, **case, "model": mo[:1200], "impl": impl[:1200]})
         ch.sample({"op": what, **case, "result": impl[:160]}, limit=3)
+
+
+def crosscheck_manifest_table(ch: Channel):
+    """Gen/Manifests.lean against the live manifest_map"""
+    import gen_manifests
+    ch.evaluations += 1
+    src = gen_manifests.render(gen_manifests.dump())
+    on_disk = gen_manifests.OUT.read_text() if gen_manifests.OUT.exists() else ""
+    if src != on_disk:
+        ch.disagreements.append({"op": "table", "what": "Gen/Manifests.lean differs from the live manifest_map"})
